@@ -259,6 +259,7 @@ esl_msafile_clustal_Read(ESL_MSAFILE *afp, ESL_MSA **ret_msa)
 	if ( (status = esl_msa_SetSeqName(msa, idx, p+name_start, name_len)) != eslOK) goto ERROR;
 	nseq++;
       } else {
+	if (idx >= nseq) ESL_XFAIL(eslEFORMAT, afp->errmsg, "block contains more seqs than earlier blocks did");
 	if (! esl_memstrcmp(p+name_start, name_len, msa->sqname[idx]))
 	  ESL_XFAIL(eslEFORMAT, afp->errmsg, "expected sequence %s on this line, but saw %.*s", msa->sqname[idx], (int) name_len, p+name_start);
       }
